@@ -108,6 +108,7 @@ DISPATCH_BUDGET = {"quick": 640, "thorough": 32000}
 LAYOUT_BUDGET = {"quick": 320, "thorough": 16000}
 # the invariants over the complete cycle (price updates and driver phases included) live in one module
 EXTRA_TARGETS = {p: ["Properties.Full"] for p in ("C02", "C04", "C07", "C08", "C10", "C17")}
+NO_DIFFS = r"^\b$"      # matches no disagreement text: only the monitors of the layer are used
 TIMED_REQUEST_DIFFS = r"admitted|cancelled|requests present"
 
 
@@ -146,7 +147,8 @@ def control_check(prop: str, tier: str, seed: int, *, mon_props: Optional[List[s
     if with_layout:
         # the initial layout: generated input files through the real initialisation
         ll = layers.layout_layer(seed, LAYOUT_BUDGET[tier])
-        corr_ok = use_simple_layer(v, prop, ll, "layout", mon_props or [prop]) and corr_ok
+        # (the comparison of the loaded stations with the model of the loaders belongs to C02)
+        corr_ok = use_simple_layer(v, prop, ll, "layout", mon_props or [prop], None if prop == "C02" else NO_DIFFS) and corr_ok
     tl = None
     if with_timed:
         # the admission / cancellation path: real request files (sorted and not) through the real readers
@@ -222,7 +224,7 @@ def check_C07(tier: str, seed: int) -> int:
 
 @register("C10")
 def check_C10(tier: str, seed: int) -> int:
-    return control_check("C10", tier, seed, with_dispatcher=True, with_timed=True)
+    return control_check("C10", tier, seed, with_dispatcher=True, with_timed=True, with_layout=True)
 
 
 @register("C17")
@@ -308,6 +310,9 @@ def check_C08(tier: str, seed: int) -> int:
     n_hist, steps = HIST_BUDGET[tier]
     hl = layers.hist_layer(seed, n_hist, steps)
     ok2 = use_hist_layer(v, "C08", hl, ["C08"])
+    # the indexes of a freshly loaded state (generated input files through the real initialize())
+    ll = layers.layout_layer(seed, LAYOUT_BUDGET[tier])
+    use_simple_layer(v, "C08", ll, "layout", ["C08"], diff_filter=NO_DIFFS)
     if (not ps.ok or not ok1 or not ok2) and not v.violations:
         big = layers.coll_layer(seed + 7919, COLL_BUDGET[tier] * 8)
         use_simple_layer(v, "C08", big, "coll", ["C08"])
@@ -390,6 +395,9 @@ BASE_OPTS = {"world": {"base_scenario": True, "n_veh": [3, 6]}, "hist": {"p_inst
 BASE_BUDGET = {"quick": (96, 30), "thorough": (2000, 50)}
 
 
+QUEUERUN_BUDGET = {"quick": 320, "thorough": 16000}
+
+
 @register("C18")
 def check_C18(tier: str, seed: int) -> int:
     v = fw.Verdict("C18", tier, seed, "proof")
@@ -400,6 +408,8 @@ def check_C18(tier: str, seed: int) -> int:
     n_hist, steps = HIST_BUDGET[tier]
     hl = layers.hist_layer(seed, n_hist, steps)
     ok2 = use_hist_layer(v, "C18", hl, ["C18"])
+    qr = layers.queuerun_layer(seed, QUEUERUN_BUDGET[tier])
+    use_simple_layer(v, "C18", qr, "queuerun", ["C18"])
     if (not ps.ok or not ok1 or not ok2) and not v.violations:
         big = layers.hist_layer(seed + 7919, n_q * 8, steps_q, QUEUE_OPTS)
         use_hist_layer(v, "C18", big, ["C18"])
@@ -408,12 +418,16 @@ def check_C18(tier: str, seed: int) -> int:
         v.broken(f"proof obligation for C18: {ps.failing_obligation()}", {"theorem_or_build": ps.failing_obligation()})
     cov = {**fw.proof_coverage(ps), **hist_coverage(ql)}
     qtr = [t for t in ql["triples"] if "chargeQueueing" in t[0] or "chargeQueueing" in t[2]]
-    cov["evaluations"] = ql["records"] + hl["records"]
+    cov["evaluations"] = ql["records"] + hl["records"] + qr["steps"]
+    cov["whole_steps_builtin_generators"] = qr["steps"]
+    cov["whole_steps_with_a_queue"] = qr["rows"]
     cov["distinct_nontrivial"] = len(qtr)
     cov["rule"] = ("queue histories: one public station with a single plug type (1-2 plugs), 4-7 vehicles standing at it, a controller producing arrivals (direct and through "
                    "DispatchStation, which queues at a full station), departures, abandonments and excursions; every update phase through the real perform_vehicle_state_updates, compared "
                    "with the model on the whole state and checked by the Lean FIFO monitor on the implementation's own pre/post states (a vehicle that started charging while an "
-                   "earlier queuer for the same plug is left waiting); distinct_nontrivial = distinct transitions into/out of ChargeQueueing; plus the general history layer")
+                   "earlier queuer for the same plug is left waiting); distinct_nontrivial = distinct transitions into/out of ChargeQueueing; plus the general history layer; plus whole steps of queue worlds under the BUILT-IN "
+                   "generators (Dispatcher + ChargingFleetManager through the real StepSimulation.update), judged between consecutive states: a vehicle that left a queue to charge "
+                   "must not leave an earlier queuer behind")
     v.coverage = cov
     v.assumptions = ["fifo_enabled: counters match the vehicles (C02), the earlier vehicle stands at the station with access and a usable plug type (C07, C10, ChargeQueueing.enter); "
                      "environment without geofence refusals whose physics predicates read mechatronics / energy / plug energy type only (EnvCongr, proved for the driver's environment)"]
@@ -614,6 +628,13 @@ def check_C12(tier: str, seed: int) -> int:
     ps = fw.ProofStatus("C12", ["Properties.C12"])
     dl = layers.dispatch_layer(seed, DISPATCH_BUDGET[tier])
     ok1 = use_simple_layer(v, "C12", dl, "dispatch", ["C12"])
+    # eligibility as the whole step wires it: the dispatcher inside one real StepSimulation.update must see the
+    # driver states of this very step (shift layer), and the memberships it filters by must be the ones the
+    # input files give (layout layer)
+    sl = layers.shift_layer(seed, SHIFT_BUDGET[tier])
+    use_simple_layer(v, "C12", sl, "shift", ["C20/dispatch-off-shift"], diff_filter=NO_DIFFS)
+    ll = layers.layout_layer(seed, LAYOUT_BUDGET[tier])
+    use_simple_layer(v, "C12", ll, "layout", ["C12"], diff_filter=NO_DIFFS)
     if (not ps.ok or not ok1) and not v.violations:
         big = layers.dispatch_layer(seed + 7919, DISPATCH_BUDGET[tier] * 6)
         use_simple_layer(v, "C12", big, "dispatch", ["C12"])
